@@ -60,8 +60,8 @@ CLAIMED = {
             "the attributes — for every definition. Requested derives are exercised on the generated type and compared with the model applied to the "
             "generated item. " + TIE, "`Derives take effect` and visibility are decided by compiling and using the generated type.", TECH, "DESIGN.md §7 C09"),
     "C10": ("C10_slots / C10_get_set_same / C10_get_set_other / C10_history / C10_constructors / C10_transform / C10_all / C10_all_ok / "
-            "C10_disabled_panics / C10_total_map: one slot per enabled variant; after ANY history of writes, reading k gives the last value written to k else the "
-            "constructed one; constructors / transform pointwise; all / all_ok; disabled keys panic; end to end on the generated table every enabled variant reads and writes a value (no missing arm, no panic) with no side hypothesis — for every definition and element type. " + TIE,
+            "C10_disabled_panics / C10_total_map / C10_keys_are_iter: one slot per enabled variant; after ANY history of writes, reading k gives the last value written to k else the "
+            "constructed one; constructors / transform pointwise; all / all_ok; disabled keys panic; end to end on the generated table every enabled variant reads and writes a value (no missing arm, no panic) with no side hypothesis; the keys are exactly EnumIter's output in order, COUNT of them — for every definition and element type. " + TIE,
             "Struct-literal field evaluation order and `?` are modelled.", TECH, "DESIGN.md §7 C10"),
     "C11": ("C11_capture / C11_display_default / C11_transparent_display / C11_transparent_as_ref / C11_transparent_into_static: an input that matches "
             "no other variant is captured unchanged in the default variant; Display of a default variant without to_string and Display / AsRef / From "
